@@ -113,7 +113,7 @@ Transp(M, p, q) == [i \in 1..q |-> [j \in 1..p |-> M[j][i]]]     \* M is p x q
 
 (* ------------------------------------------------------------------------------ potrf *)
 PA == E.A
-PN == PA.n
+PN == PA.m      \* the order: the number of rows of the view (m <= n; the columns beyond m are not part of the matrix)
 Sel(i, j) == IF E.uplo = "L" THEN j <= i ELSE i <= j
 SelCells  == {Cell(PA, q[1], q[2]) : q \in {r \in (1..PN) \X (1..PN) : Sel(r[1], r[2])}}
 Pre(i, j)  == <<At(E.A0, Cell(PA, i, j)), At(E.A0i, Cell(PA, i, j))>>
@@ -160,13 +160,13 @@ ProdOK(k) ==
                                ELSE CSumN([m \in 1..k |-> CMul(CConj(T(m, i)), T(m, j))], k)      \* T^H.T
 RetOK(k) ==
   /\ E.ret.rows = k
-  /\ k > 0 => /\ E.ret.cols \in {k, PN}       \* leading k x k block, or the k leading rows
+  /\ k > 0 => /\ E.ret.cols \in {k, PN, PA.n}       \* leading k x k block, or the k leading rows
               /\ Len(E.ret.cells) = k
               /\ \A i \in 1..k : /\ Len(E.ret.cells[i]) = E.ret.cols
                                  /\ \A j \in 1..E.ret.cols : E.ret.cells[i][j] = Cell(PA, i, j)
 
 PotrfVerdict ==
-  IF ~(DescOK(PA) /\ PA.m = PA.n /\ Len(E.A0) = BufLen(PA) /\ Len(E.A0i) = BufLen(PA)) THEN "desc"
+  IF ~(DescOK(PA) /\ PA.m <= PA.n /\ Len(E.A0) = BufLen(PA) /\ Len(E.A0i) = BufLen(PA)) THEN "desc"
   ELSE IF ~Observed(PA, E.cells) THEN "harness_layout"
   ELSE IF ~PotrfDataOK THEN "data"
   ELSE IF ~Chol.ok THEN "data"
